@@ -166,3 +166,53 @@ def namevalue_roundtrip(k0, k1, n):
     again = TagList()
     w.encode(again)
     check(same_tags(again.tagList, first), "re-encodes to the same tags")
+
+# -- the array and list containers: ArrayOf / ListOf of an atomic and of a constructed element type, 0..3 elements --------------------------------
+
+from bacpypes.constructeddata import ArrayOf, ListOf
+
+ArrU, LstU, ArrInner, LstInner = ArrayOf(Unsigned), ListOf(Unsigned), ArrayOf(Inner), ListOf(Inner)
+
+def _container_lemma(kind, klass, constructed):
+    @lemma("C03.%s_roundtrip[%s elements]" % (kind, "constructed" if constructed else "atomic"),
+           params={"n": OneOf(0, 1, 2, 3), "e0": Int(0, 2 ** 32 - 1), "e1": Int(0, 255), "e2": Int(0, 70000), "b1": Maybe(Bool())}, max_paths=20000)
+    def container_roundtrip(n, e0, e1, e2, b1):
+        if constructed:
+            items = [Inner(a=e0), Inner(a=e1, b=b1) if b1 is not None else Inner(a=e1), Inner(a=e2)][:n]
+        else:
+            items = [e0, e1, e2][:n]
+        v = klass(list(items))
+        tl = TagList()
+        v.encode(tl)
+        first = list(tl.tagList)
+        w = klass()
+        w.decode(tl)
+        check(len(tl.tagList) == 0, "everything consumed")
+        got = list(w.value[1:]) if kind == 'arrayof' else list(w.value)
+        if kind == 'arrayof':
+            check(w.value[0] == n, "the array knows its length")
+        check(len(got) == n, "same number of elements")
+        if constructed:
+            check(all(same_inner(got[i], items[i]) for i in range(n)), "same elements, in order")
+        else:
+            check(got == items, "same elements, in order")
+        again = TagList()
+        w.encode(again)
+        check(same_tags(again.tagList, first), "re-encodes to the same tags")
+    return container_roundtrip
+
+for _kind, _klass, _c in (('arrayof', ArrU, False), ('arrayof', ArrInner, True), ('listof', LstU, False), ('listof', LstInner, True)):
+    _container_lemma(_kind, _klass, _c)
+
+@lemma("C03.arrayof_item_roundtrip", params={"n": OneOf(0, 1, 2, 3), "e0": Int(0, 2 ** 32 - 1), "e1": Int(0, 255), "e2": Int(0, 70000), "item": OneOf(0, 1, 2, 3)})
+def arrayof_item_roundtrip(n, e0, e1, e2, item):
+    requires(item <= n)
+    items = [e0, e1, e2][:n]
+    v = ArrU(list(items))
+    tl = TagList()
+    v.encode_item(item, tl)
+    w = ArrU(list(items))
+    w.decode_item(item, tl)
+    back = w.value          # decode_item leaves the decoded item in .value
+    check(len(tl.tagList) == 0, "everything consumed")
+    check(back == (n if item == 0 else items[item - 1]), "index 0 carries the length, index i the element")
